@@ -71,6 +71,8 @@ type chainCfg struct {
 	calm       bool
 	genesis    chain.GenesisOpts
 	steps      []chain.StepPlan // explicit steps (corner scenarios); nil = RandomScenario
+	// prepare edits the freshly built genesis chain before the history starts
+	prepare func(c *chain.Chain) error
 }
 
 func chainScenarios(tier string, seed int64) []scenario {
@@ -133,6 +135,13 @@ func chainScenarios(tier string, seed int64) []scenario {
 		cfgs = append(cfgs, chainCfg{name: "corner-mixed-attester-slashing", preset: chain.PresetS1, forks: f, validators: 16,
 			genesis: chain.GenesisOpts{PendingDeposits: []chain.DepositSpec{{Key: 16}}}, steps: mixedSlashingSteps()})
 	}
+	// own corner: deposits whose signature BYTES have every shape (valid / wrong but decodable / all-zero / all-0xff /
+	// garbage / infinity), as top-ups (counted whatever the signature) and for new pubkeys (ignored unless valid;
+	// a later valid deposit of the same pubkey creates the validator)
+	for _, f := range []chain.ForkSchedule{chain.Phase0Only, F(0, 0, 0, 0), F(0, 1, X, X), F(1, 2, 3, 4), F(0, 0, X, X), F(0, 0, 0, X)} {
+		cfgs = append(cfgs, chainCfg{name: "corner-deposit-signature-shapes", preset: chain.PresetS1, forks: f, validators: 16,
+			steps: honestSteps(16), prepare: depositSignatureShapes})
+	}
 	for _, ns := range chain.CornerScenarios() {
 		ns := ns
 		g := ns.Genesis
@@ -168,6 +177,11 @@ func runChain(rec *beaconrec.Recorder, cfg chainCfg, name string, rng *rand.Rand
 	if err != nil {
 		return err
 	}
+	if cfg.prepare != nil {
+		if err := cfg.prepare(c); err != nil {
+			return err
+		}
+	}
 	steps := cfg.steps
 	if steps == nil {
 		steps = chain.RandomScenario(rng, spec, chain.ScenarioOpts{Epochs: cfg.epochs, Validators: cfg.validators, SkipProb: cfg.skipProb, Calm: cfg.calm})
@@ -194,7 +208,7 @@ func runChain(rec *beaconrec.Recorder, cfg chainCfg, name string, rng *rand.Rand
 	}
 	c.Runner = rec
 	meta := map[string]interface{}{"scenario": name}
-	if err := initHistory(rec, c, cfg.preset, g, meta); err != nil {
+	if err := initHistory(rec, c, cfg.preset, g, meta, cfg.prepare); err != nil {
 		return err
 	}
 	sc := chain.NewScenario(c)
@@ -224,7 +238,7 @@ func runChain(rec *beaconrec.Recorder, cfg chainCfg, name string, rng *rand.Rand
 // initHistory writes the Init event.  When a fork is scheduled at epoch 0 the genesis state was upgraded in
 // place by chain.NewGenesis (zrnt's UpgradeMaybe at slot 0); the same genesis is then built once more under
 // a schedule without forks to obtain the pre-upgrade state, and the upgrade itself is validated.
-func initHistory(rec *beaconrec.Recorder, c *chain.Chain, preset string, g chain.GenesisOpts, meta map[string]interface{}) error {
+func initHistory(rec *beaconrec.Recorder, c *chain.Chain, preset string, g chain.GenesisOpts, meta map[string]interface{}, prepare ...func(*chain.Chain) error) error {
 	keys := keyTable(c.Keys, keyUniverse)
 	if c.Spec.ALTAIR_FORK_EPOCH != 0 {
 		return rec.InitWithKeys(c.Spec, c.State, meta, keys)
@@ -233,6 +247,13 @@ func initHistory(rec *beaconrec.Recorder, c *chain.Chain, preset string, g chain
 	pre, err := chain.NewGenesis(chain.NewSpec(preset, chain.Phase0Only), g)
 	if err != nil {
 		return err
+	}
+	for _, p := range prepare {
+		if p != nil {
+			if err := p(pre); err != nil {
+				return err
+			}
+		}
 	}
 	return rec.InitUpgraded(c.Spec, pre.State, c.State, meta, keys)
 }
@@ -269,4 +290,56 @@ func mixedSlashingSteps() []chain.StepPlan {
 		steps = append(steps, st)
 	}
 	return steps
+}
+
+func honestSteps(n int) []chain.StepPlan {
+	var steps []chain.StepPlan
+	for sl := 1; sl <= n; sl++ {
+		steps = append(steps, chain.StepPlan{Slot: common.Slot(sl), Seed: int64(8000 + sl)})
+	}
+	return steps
+}
+
+// depositSignatureShapes puts 17 deposits on the eth1 side and lets the genesis state's eth1_data commit to them
+// (as chain.GenesisOpts.PendingDeposits does): the first nine blocks must include them, two per block.
+func depositSignatureShapes(c *chain.Chain) error {
+	spec := c.Spec
+	shape := func(d *common.DepositData, how string) {
+		switch how {
+		case "zero":
+			d.Signature = common.BLSSignature{}
+		case "ff":
+			for j := range d.Signature {
+				d.Signature[j] = 0xff
+			}
+		case "garbage":
+			for j := range d.Signature {
+				d.Signature[j] = byte(0x31 + 3*j)
+			}
+		case "infinity":
+			d.Signature = chain.InfinitySignature
+		}
+	}
+	add := func(key chain.KeyID, amount common.Gwei, how string) {
+		ds := chain.DepositSpec{Key: key, Amount: amount, BadSignature: how == "wrong"}
+		d := chain.MakeDepositData(spec, c.Keys, ds)
+		shape(&d, how)
+		c.Deposits.Append(d)
+	}
+	inc := spec.EFFECTIVE_BALANCE_INCREMENT
+	// top-ups of genesis validators 2..7
+	for i, how := range []string{"valid", "wrong", "zero", "ff", "garbage", "infinity"} {
+		add(chain.KeyID(2+i), inc*2, how)
+	}
+	// new pubkeys 16..21, then the valid re-deposits of 17..21
+	for i, how := range []string{"valid", "wrong", "zero", "ff", "garbage", "infinity"} {
+		add(chain.KeyID(16+i), 0, how)
+	}
+	for k := 17; k <= 21; k++ {
+		add(chain.KeyID(k), 0, "valid")
+	}
+	cur, _ := c.Eth1()
+	ed := c.Deposits.Eth1Data(c.Deposits.Count())
+	ed.BlockHash = cur.BlockHash
+	return c.State.SetEth1Data(ed)
 }
